@@ -209,17 +209,17 @@ def make_cases(ctx, listing, thorough):
     others = listing["others"].split(",")
     sets = {"E1": listing["E1"], "E2": listing["E2"]}
     cases = []
-    nval = 6 if thorough else 2
+    nval = 8 if thorough else 3
     # structs: every shape x byte order x prefix 0..15
     for sh in shapes:
         for bo in ("le", "be"):
             for prefix in range(16):
-                for _ in range(nval if prefix % 4 == 0 or thorough else 1):
+                for _ in range(nval if prefix % 4 == 0 or thorough else 2):
                     cases.append({"op": "ST", "shape": sh, "bo": bo, "prefix": prefix, "toks": gen_value(r, sh)})
     # has_sig: every shape asked for every other body
     for sh in shapes:
         for ot in others:
-            for _ in range(2 if thorough else 1):
+            for _ in range(3 if thorough else 1):
                 cases.append({"op": "HS", "shape": sh, "bo": r.choice(("le", "be")), "other": ot, "toks": gen_value(r, ot)})
     # enums: every case x byte order x prefix
     for name, desc in sets.items():
@@ -227,14 +227,14 @@ def make_cases(ctx, listing, thorough):
         for i, (kind, ty) in enumerate(cs):
             for bo in ("le", "be"):
                 for prefix in range(16):
-                    for _ in range(nval if prefix % 8 == 0 or thorough else 1):
+                    for _ in range(nval if prefix % 8 == 0 or thorough else 2):
                         cases.append({"op": "EN", "set": name, "desc": desc, "bo": bo, "prefix": prefix, "case": i,
                                       "toks": gen_value(r, ty)})
         inside = {erased(ty) for _, ty in cs}
         for ot in others:
             if erased(ot) in inside:
                 continue
-            prefixes = range(16) if thorough else sorted(r.sample(range(16), 5))
+            prefixes = range(16) if thorough else sorted(r.sample(range(16), 8))
             for prefix in prefixes:
                 cases.append({"op": "EO", "set": name, "desc": desc, "bo": r.choice(("le", "be")), "prefix": prefix, "other": ot,
                               "toks": gen_value(r, ot)})
@@ -273,7 +273,6 @@ def run(ctx):
     ctx.trusted = ["Coq 8.16.1 kernel", "extraction (ExtrOcamlBasic only) + ocaml/c16/driver.ml", "harness/src/bin/c16.rs, wirelib.rs",
                    "Wire/SpecEnc.v as the reading of the wire format (through C02 and decoder completeness)"]
     ctx.assumptions = ["usize is 64 bit, native byte order is little endian",
-                       "typed-decoder completeness (Wire/DecodeComplete.v, in progress) is an explicit premise of C16_enum_hit and C16_cross_decode_typed",
                        "UnixFd values and maps with several entries are exercised by C01/C02, not here",
                        "marshalling the Catchall case of the macro enums is unimplemented!() by design and outside the property"]
     if not os.environ.get("VERIF_SKIP_PROOF"):
